@@ -1,7 +1,7 @@
 (* Executable (binary64) instance of the synapse model for the correspondence check: operations as
    data, exact serialisation of every output and of the three records after every operation. *)
 From Coq Require Import List ZArith Bool PrimFloat.
-From Inferno Require Import Base.Num Base.NumF Gen.Infra Gen.Interpolation C01.Ring C04.Synapse.
+From Inferno Require Import Base.Num Base.NumF Gen.Infra Gen.Interpolation C01.Ring C04.Synapse C04.Config.
 Import ListNotations.
 
 Definition ringF := @ring float unit.
@@ -38,3 +38,16 @@ Fixpoint trace (c : cfg FN) (s : syn FN) (ops : list (sop FN)) : list tree :=
 
 Definition run_case (c : cfg FN) (ops : list (sop FN)) : tree :=
   Nd (Nd [ser_nat (recordsz FN (cdt FN c) (cdelay FN c))] :: trace c (init FN c) ops).
+
+(* ---------- runs with configuration changes (C04/Config.v) ---------- *)
+Fixpoint ctrace (cs : cst FN) (ops : list (cop FN)) : list tree :=
+  match ops with
+  | [] => []
+  | o :: tl =>
+      match cstep FN cs o with
+      | SOk (cs', out) => Nd [Nd [L 0; ser_out out]; ser_state (csyn FN cs')] :: ctrace cs' tl
+      | SErr e => Nd [Nd [L 1; ser_err e]; ser_state (csyn FN cs)] :: ctrace cs tl
+      end
+  end%Z.
+Definition run_ccase (c : cfg FN) (ops : list (cop FN)) : tree :=
+  Nd (Nd [ser_nat (recordsz FN (cdt FN c) (cdelay FN c))] :: ctrace (cinit FN c) ops).
